@@ -223,9 +223,12 @@ pub enum SeqKind {
     Wild50,
     Homopolymer,
     Skewed,
+    /// the 32 (or 16) striped columns alternate between blocks of "low" and "high" symbols
+    ColumnBlocks,
 }
 
-pub const SEQ_KINDS: [SeqKind; 5] = [
+pub const SEQ_KINDS: [SeqKind; 6] = [
+    SeqKind::ColumnBlocks,
     SeqKind::Uniform,
     SeqKind::Wild5,
     SeqKind::Wild50,
@@ -236,7 +239,12 @@ pub const SEQ_KINDS: [SeqKind; 5] = [
 pub fn gen_seq(rng: &mut Rng, k: usize, len: usize, kind: SeqKind) -> Vec<u8> {
     let mut v = Vec::with_capacity(len);
     let h = rng.below(k - 1) as u8;
-    for _ in 0..len {
+    // ColumnBlocks: symbol classes by striped column (rows = ceil(len / 32)), block period 16 or 32
+    let cb_rows = ((len + 31) / 32).max(1);
+    let cb_period = if rng.chance(0.5) { 16 } else { 32 };
+    let cb_split = rng.below(k - 1); // low symbols: 0..=cb_split, high ones: the rest incl. the wildcard
+    let cb_flip = rng.chance(0.5);
+    for pos in 0..len {
         let s = match kind {
             SeqKind::Uniform => rng.below(k - 1) as u8,
             SeqKind::Wild5 => {
@@ -254,6 +262,17 @@ pub fn gen_seq(rng: &mut Rng, k: usize, len: usize, kind: SeqKind) -> Vec<u8> {
                 }
             }
             SeqKind::Homopolymer => h,
+            SeqKind::ColumnBlocks => {
+                let col = pos / cb_rows;
+                let low = ((col % cb_period) < cb_period / 2) != cb_flip;
+                if rng.chance(0.01) {
+                    rng.below(k) as u8
+                } else if low || cb_split + 1 >= k {
+                    rng.below(cb_split + 1) as u8
+                } else {
+                    (cb_split + 1 + rng.below(k - 1 - cb_split)) as u8
+                }
+            }
             SeqKind::Skewed => {
                 if rng.chance(0.7) {
                     h
